@@ -58,6 +58,16 @@ SUMMARY = {
     "C06-3": ("`strcmp(\"END\", key)` -> `strncmp(\"END\", key, 3)` in `reservedFitsKeyword`", "auxiliary keys beginning with END (ENDTIME ...): refused by write_key, dropped by the reader", "missed at first; FS-5b (reserved families frozen with their kind of match) added"),
     "C10-3": ("`fitmat->stype = 1` set in `glamfit_complex` before the solve", "monotonic fit whose upper region has no data: the solver drops the lower triangle and never releases constrained coefficients", "missed at first; GW-5 (system handed over untouched) added"),
     "C15-3": ("`orders_are` matches the order list as a multiset (`std::is_permutation`)", "table {2,2,2,3,2,2} permuted so that the order-3 dimension is last, evaluated through the evaluator object", "missed at first; DP-8 (admission predicate is position-wise) added"),
+    "C01-4": ("hand-rolled bisection in `searchcenters` replaced by `std::lower_bound` (should be upper_bound)", "point exactly on an interior knot of an order-0 axis or a knot of full multiplicity", "caught (SC-2/SC-5: the search no longer has the recognised shape)"),
+    "C02-4": ("`derivs[j] = derivs[j-i]` -> `derivs[j-1]` in the right-margin re-indexing of `bspline_nonzero`", "gradient at a point two or more intervals into the right margin, order >= 2", "missed at first; KB-7 (values and derivs move in lock-step) added"),
+    "C03-4": ("`PHOTOSPLINE_MAXDIM` 8 -> 9 (as the error message suggests); NVECS = 9/4 still 2", "gradient of an 8-dimensional table: 9 lanes into 8-lane buffers, paths disagree", "missed at first under C03 (caught under C05: KB-3); C03 now runs KB-3"),
+    "C04-4": ("helper setting MXCSR flush-to-zero / denormals-are-zero, called from both gradient routines, never restored", "a gradient evaluation earlier on the thread, then denormal coordinates or knots in lookup", "missed at first; ENV-1 (nobody writes the floating-point control state) added"),
+    "C05-4": ("zero-fill loop `j < degree` -> `j <= degree` in `bsplvb_simple`'s lower-margin re-indexing", "point in the lower margin of the last dimension: one element past the stack buffer", "caught (KB-5 affine index range)"),
+    "C06-4": ("`ext_error` cleared after a failed move to EXTENTS", "legacy file without EXTENTS whose last axis has exactly 2*ndim knots: knots read as extents", "missed at first; SM-6 (a failed HDU move keeps its status until tested) added"),
+    "C07-4": ("`readsplinefitstable`: `splinetable_free` replaced by a bare `delete` (handle not nulled)", "successful read, then failing read into the same handle, then any use", "missed at first under C07 (caught under C18: CW-4); C07 now runs CW-4 on the readers"),
+    "C08-4": ("reader returns false instead of throwing when a KNOTS data unit is short (callers ignore the bool)", "file truncated inside a knot vector: loads as a different table", "missed at first under C08 (caught under C07: VG-2); C08 now runs VG-2"),
+    "C09-4": ("`kronecker_product(tmp2, result)` instead of `(result, tmp2)` in `calc_penalty`", ">= 2 dimensions that differ (knots, orders, smoothing) with non-zero smoothing", "caught (GW-3)"),
+    "C10-4": ("`get_column`'s exhaustive search replaced by a single merge pass", "second consecutive single-coefficient release whose index is not the largest free one", "missed at first; SO-1 (no search position carried across requested rows) added"),
     "C20-2": ("`extents[0] = nullptr` removed from the reader", "allocation failure at the 7th request with a non-zero-filling allocator", "caught"),
 }
 try:
